@@ -71,7 +71,7 @@ fn model_and_or_fold(block: &mut Block) -> usize {
 }
 
 fn observe_ast(block: &Block, ctx: &FailCtx) -> Observation {
-    luaref::observe_block(block, Mode::Luau, ctx.fuel, &ctx.env_out)
+    luaref::observe_block(block, Mode::Luau, ctx.fuel, &**ctx.env_out)
 }
 
 /// repair model for the `local _ = <value>` statements synthesised by expressions_as_statement: the output is
@@ -227,7 +227,7 @@ pub fn classify_behaviour(_property: &str, ctx: &FailCtx) -> Option<String> {
     if rule == "convert_square_root_call" {
         // repair model: the output behaves like the original once `x ^ 0.5` is computed with sqrt semantics,
         // i.e. the only difference is IEEE pow vs sqrt on -0 and -inf
-        let env = ctx.env_out;
+        let env = ctx.env_out.clone();
         let repaired = luaref::observe(ctx.output, Mode::Luau, ctx.fuel, &|it| {
             env(it);
             it.pow_half_as_sqrt = true;
